@@ -14,9 +14,9 @@ from .core import Invalid
 OPS = {}  # name -> dict(make=fn, tol=..., c15=bool, inplace=bool)
 
 
-def op(name, tol="exact", c15=True, weight=1):
+def op(name, tol="exact", c15=True, weight=1, cases=1):
     def deco(fn):
-        OPS[name] = dict(make=fn, tol=tol, c15=c15, weight=weight, name=name)
+        OPS[name] = dict(make=fn, tol=tol, c15=c15, weight=weight, name=name, cases=cases)
         return fn
     return deco
 
@@ -871,9 +871,13 @@ def mk_constant_of_shape(g):
     return g.node("ConstantOfShape", [sv], lambda s: np.full(tuple(int(v) for v in s), val[0], dtype=val.dtype), attrs)
 
 
-@op("Cast", tol="exact", weight=2)
+@op("Cast", tol="exact", weight=2, cases=4)
 def mk_cast(g):
-    x = g.pick(dt=("f32", "i32", "i64", "bool"))
+    if g.rng.chance(1, 4):
+        # 8-bit sources (values representable in both u8 and i8)
+        x = g.pick(dt=(g.rng.choose(["u8", "i8"]),), lo=0, hi=100)
+    else:
+        x = g.pick(dt=("f32", "i32", "i64", "bool"))
     to = g.rng.choose(["f32", "i32", "i64", "bool", "u8", "i8"])
     from . import pb
 
@@ -1125,7 +1129,7 @@ def _pool(name, avg):
                         out[:, :, i, j] = win.max(axis=(2, 3))
             return out.astype(np.float32)
         return g.node(name, [x], ref, attrs)
-    OPS[name] = dict(make=make, tol="accum" if avg else "exact", c15=True, weight=1, name=name)
+    OPS[name] = dict(make=make, tol="accum" if avg else "exact", c15=True, weight=1, name=name, cases=3)
 
 
 _pool("MaxPool", False)
@@ -1249,7 +1253,7 @@ def mk_einsum(g):
     return g.node("Einsum", ins, lambda *xs: np.einsum(eq, *[x.astype(np.float64) for x in xs]).astype(np.float32), {"equation": eq})
 
 
-@op("Resize", tol="math")
+@op("Resize", tol="math", cases=3)
 def mk_resize(g):
     r = g.rng
     # Channel counts on both sides of 4 and 8: kernels process channels in groups.
